@@ -326,6 +326,9 @@ def emit_connect(dst, src, style):
 def emit(design, connect_order=None, connect_style=None, block_order=None):
   """-> python source.  connect_order[cname] = permutation of connect indices; connect_style[cname][i] in 0..3"""
   L = ["from pymtl3 import *", ""]
+  if design.get("shadow_globals"):
+    # module-level names that coincide with block-local loop variables / closure constants (python scoping: local > closure > global)
+    L += [f"{nm_} = {val}" for nm_, val in design["shadow_globals"]] + [""]
   for tn, fields in design["types"].items():
     L += ["@bitstruct", f"class {tn}:"] + [f"  {fn}: {type_text(ft)}" for fn, ft in fields] + [""]
   for cn in design["order"]:
@@ -1102,6 +1105,11 @@ class Gen:
 def generate(rng, knobs=None):
   g = Gen(rng, knobs)
   g.design["top"] = g.gen_class(g.k["depth"], True)
+  if g.k.get("p_shadow") and rng.random() < g.k["p_shadow"]:
+    names = {"i"}
+    for c in g.design["classes"].values():
+      names |= set(c.get("freevars", {}))
+    g.design["shadow_globals"] = [(n, rng.choice([0, 1, 2, 77])) for n in sorted(names)]
   return g.design
 
 
